@@ -51,7 +51,7 @@ func vC11Build(shape [][][]int, names map[int]string) (*Profile, map[*Function]i
 					f := lf[fi]
 					fn := fns[f]
 					if fn == nil {
-						fn = &Function{ID: uint64(len(p.Function) + 1), Name: names[f], SystemName: names[f], Filename: "f.go"}
+						fn = &Function{ID: uint64(len(p.Function) + 1), Name: names[f], SystemName: names[f], Filename: vC11File(f)}
 						fns[f] = fn
 						ids[fn] = f
 						p.Function = append(p.Function, fn)
@@ -78,6 +78,16 @@ func vC11Frames(s *Sample, ids map[*Function]int) []int {
 		}
 	}
 	return out
+}
+
+// vC11Files: per-function source file; by default all functions share f.go.
+var vC11Files map[int]string
+
+func vC11File(f int) string {
+	if n, ok := vC11Files[f]; ok {
+		return n
+	}
+	return "f.go"
 }
 
 // vC11Simple is the simplified form of each pool name, by hand (the frame
